@@ -329,6 +329,10 @@ def render_map(m: dict, rng: random.Random) -> str:
         parts.append(f"mirror_bank_range={num(m['mirror_bank_range'][0])}, {num(m['mirror_bank_range'][1])}")
     head, tail = parts[0], parts[1:]
     rng.shuffle(tail)
+    if rng.random() < 0.25:
+        # a long line wrapped: the attribute list goes on on the next line
+        k = rng.randint(1, len(tail) - 1)
+        return ".map " + " ".join([head] + tail[:k]) + "\n     " + " ".join(tail[k:])
     return ".map " + " ".join([head] + tail)
 
 
